@@ -570,4 +570,103 @@ def c23(tier, seed):
         "of a MultiCrossBlock; both samplers exhausted, validated by MCTrace, enumerated by MCEnum"), t0, machinery_error=err)
 
 
-CHECKS = {"C23": c23, "C01": c01, "C02": c02, "C04": c04, "C06": c06, "C07": c07, "C08": c08, "C09": c09, "C16": c16}
+SMGEN_REFUSALS = ("not supported by SMGen", "Unsupported level", "are not supported by SMGen")
+
+
+def c29(tier, seed):
+    import os
+    import impl
+    t0 = time.time()
+    cov, out, err = Coverage(), [], None
+    try:
+        rng = random.Random(seed)
+        cases = gen.systematic_flat() + gen.systematic_corner() + gen_blocks.systematic_blocks()
+        cases += gen.random_flat(rng, 30 if tier == "quick" else 400)
+        cases += common.witness_cases("C29")
+
+        def ops(c):
+            return [{"op": "synth", "strategy": "SMGen", "n": 2, "timeout": 25}, {"op": "synth", "strategy": "SMGen", "n": 1, "timeout": 25}]
+        supported = []
+        outcomes = {}
+        for batch in batches(cases, 250):
+            for r in pipeline.run_design(batch, ops, stats=cov.stats, do_enum=False, op_timeout=40):
+                if not r.built:
+                    cov.add_case(r, False)
+                    continue
+                nt = False
+                for oi in range(1, len(r.obs)):
+                    o = r.obs[oi]
+                    if o["status"] == "raised":
+                        if any(m in (o.get("msg") or "") for m in SMGEN_REFUSALS):
+                            outcomes["refused"] = outcomes.get("refused", 0) + 1
+                            continue
+                        judge_raised("C29", r, oi, out)
+                        continue
+                    if o["status"] != "returned":
+                        outcomes[o["status"]] = outcomes.get(o["status"], 0) + 1     # watchdog: inconclusive
+                        continue
+                    outcomes["returned"] = outcomes.get("returned", 0) + 1
+                    judge_sound("C29", r, oi, out)
+                    judge_unsat("C29", r, oi, out)
+                    if o["count"] > 0:
+                        nt = True
+                        if all(v == "ok" for v in r.verdicts[oi]) and oi == 1:
+                            supported.append(r.case)
+                cov.add_case(r, nt)
+                if nt:
+                    cov.sample(sample_of(r, 1))
+        cov.notes["outcomes"] = outcomes
+        # ---- schedules: TLC enumerates the interleavings of the search with the timer thread (SMGenTimer.tla)
+        tr = tlc.run("SMGenTimer.tla", "SMGenTimer.cfg", tags=("SCHED",), workers=1, extra=("-deadlock",) if False else ())
+        cov.stats["states"] = cov.stats.get("states", 0) + tr.distinct
+        cov.stats["transitions"] = cov.stats.get("transitions", 0) + tr.states
+        if tr.violation:
+            out.append(violation("C29", "model", {"id": "SMGenTimer"}, detail="invariant %s violated in SMGenTimer.tla" % tr.violation))
+        steps = 4
+        scheds = sorted(set(rec[1] for rec in tr.records))
+        points = [[k, steps] for k in scheds if k >= 0]
+        sel = supported[:8 if tier == "quick" else 60]
+        sobs = impl.run_tasks([(c, [{"op": "smgen_sched", "n": 2, "seed": seed + k, "schedule": points, "timeout": 90}])
+                               for k, c in enumerate(sel)], op_timeout=120)
+        acases, amap = [], []
+        for c, o in zip(sel, sobs):
+            if len(o) < 2 or o[1].get("status") != "returned":
+                continue
+            runs = o[1]["runs"]
+            base = runs[0]
+            if base["status"] != "returned":
+                continue
+            for run in runs[1:]:
+                cov.stats["traces"] = cov.stats.get("traces", 0) + 1
+                if run["status"] != "returned":
+                    out.append(violation("C29", "schedule", c, fire_at=run["fire_at"], exc=run.get("exc"),
+                                         detail="the search failed when the timer fired at draw %s: %s" % (run["fire_at"], run.get("msg"))))
+                    continue
+                acases.append({"a": [e["s"] for e in base["exps"]], "b": [e["s"] for e in run["exps"]]})
+                amap.append((c, run))
+        if acases:
+            path = tlc.write_cases(acases, "sched")
+            ar = tlc.run("MCAgree.tla", "MCAgree.cfg", env={"VERIF_CASES": path}, tags=("DIFF", "SAME"))
+            os.unlink(path)
+            cov.stats["states"] += ar.distinct
+            cov.stats["transitions"] += ar.states
+            seen = set()
+            for rec in ar.records:
+                if rec[0] == "DIFF" and rec[1] not in seen:
+                    seen.add(rec[1])
+                    c, run = amap[rec[1] - 1]
+                    out.append(violation("C29", "schedule", c, fire_at=run["fire_at"], fired=run["fired"],
+                                         detail="answers differ from the run in which the timer never fires"))
+            cov.notes["schedules"] = {"points": points, "runs_compared": len(acases),
+                                      "handler_exceptions_in_timer_thread": sum(1 for _, run in amap if run.get("thread_exc"))}
+    except tlc.TLCError as e:
+        err = str(e)[:2000]
+    return common.finish("C29", tier, seed, "model_checking", out, cov.as_dict(
+        "SMGen on the systematic flat / corner / combinator designs and seeded random designs: an unsupported-feature error is a "
+        "refusal, anything returned is replayed through MCTrace (length, levels, derived, crossing with weights, every "
+        "constraint); timer schedules: SMGenTimer.tla (PlusCal) is model-checked (TimerHarmless, AnswersOnlyFromSearch) and each "
+        "interleaving it produces is realised with a fake Timer fired from a second thread at the k-th draw of the seeded random "
+        "source, the answers being compared by TLC (MCAgree) with the schedule in which the timer never fires"), t0, machinery_error=err)
+
+
+CHECKS = {"C29": c29, "C23": c23, "C01": c01, "C02": c02, "C04": c04, "C06": c06, "C07": c07, "C08": c08, "C09": c09, "C16": c16}
